@@ -348,6 +348,10 @@ class _Gen:
             choices.append(("enum", 10))
         if structs:
             choices.append(("struct", 30))
+        fixed = [x for x in structs if self.an.struct_fixed_size(x)]
+        if fixed and not has_length and not delimited and self.boolean(0.5):
+            # the element count of such an array is derived from the struct's computed size
+            return self.pick(fixed)
         if delimited:
             choices += [("string", 14), ("encoded_string", 5), ("blob", 2)]
         k = self.weighted(choices)
@@ -674,16 +678,16 @@ def _gen_simple_body(self, dir_):
     fixed_structs = [x for x in self.visible_types(dir_, "struct") if (self.an.struct_fixed_size(x) or 0) > 0]
 
     def member():
-        k = self.weighted([("int", 6), ("bool", 1), ("enum", 2 if enums else 0), ("str", 2),
+        k = self.weighted([("int", 6), ("bool", 3), ("enum", 3 if enums else 0), ("str", 2),
                            ("struct", 2 if fixed_structs else 0)])
         ins = {"tag": "field", "name": _uniq_name(self.draw, FIELD_NAMES, names, "f")}
         if k == "int":
             ins["type"] = self.pick(INT_TYPES)
         elif k == "bool":
-            ins["type"] = "bool" if self.boolean(0.5) else "bool:" + self.pick(INT_TYPES)
+            ins["type"] = "bool" if self.boolean(0.3) else "bool:" + self.pick(INT_TYPES)
         elif k == "enum":
             ins["type"] = self.pick(enums)
-            if self.boolean(0.3):
+            if self.boolean(0.5):
                 ins["type"] += ":" + self.pick(INT_TYPES)
         elif k == "struct":
             ins["type"] = self.pick(fixed_structs)
